@@ -44,6 +44,8 @@ pub struct LoopSpec {
     pub invariants_except_break: Vec<Clause>,
     pub ensures: Vec<Clause>,
     pub decreases: Option<String>,
+    /// R13: typed header of a hoisted closure, e.g. `|t: &T| -> (o: Ordering)`
+    pub closure_sig: Option<String>,
     pub used: bool,
 }
 
@@ -207,6 +209,12 @@ pub fn parse_unit(text: &str) -> Unit {
                 let wrap = words.iter().find_map(|w| w.strip_prefix("wrap=").map(|x| x.to_string()));
                 let iter_name = words.get(1).filter(|w| !w.contains('=')).cloned();
                 cur_item!().loops.push(LoopSpec { key: words[0].clone(), iter_name, wrap, ..Default::default() });
+            }
+            "@closure_sig" => {
+                if !matches!(ctx, Ctx::Loop) {
+                    die("malformed-unit", &format!("line {ln}: {kw} outside @loop"));
+                }
+                cur_item!().loops.last_mut().unwrap().closure_sig = Some(rest.trim().to_string());
             }
             "@invariant" | "@invariant_except_break" | "@loop_ensures" | "@loop_decreases" => {
                 if !matches!(ctx, Ctx::Loop) {
